@@ -120,6 +120,10 @@ def run(res):
     mcases, mfailing = macro_level(res, 240 if res.tier == "quick" else 6000)
     if not mfailing:
         res.discharged.append(name_m)
+    name_s = "direct:a set pattern passes iff its patterns can be assigned to distinct elements on which they pass alone (real macro, element types outside the model)"
+    res.obligations.append(name_s)
+    if not self_consistency(res, 160 if res.tier == "quick" else 3000):
+        res.discharged.append(name_s)
     passes = sum(1 for a in impl if a.startswith("pass"))
     res.coverage.update({
         "evaluations": len(cases), "distinct_nontrivial": st["distinct_nontrivial"],
@@ -177,7 +181,157 @@ def macro_level(res, n, build_error=""):
     return cases, failing
 
 
+# ---- the statement itself, on element types the model does not have: a set passes iff its patterns can be assigned to distinct
+# elements that each match — "match" being the verdict of the SAME pattern on the SAME element asserted alone.  Element types on
+# which one pattern accepts elements another pattern tells apart: a user type seen through AsRef<str>, floats with signed zeros
+# and NaN, options, tuples.
+SELF_DECLS = r"""
+#[derive(Debug, Clone, PartialEq)] struct Label { name: String, weight: i32 }
+impl AsRef<str> for Label { fn as_ref(&self) -> &str { &self.name } }
+fn lb(n: &str, w: i32) -> Label { Label { name: n.to_string(), weight: w } }
+"""
+SELF_TYPES = {
+    "Label": (["lb(\"core\", 9)", "lb(\"core\", 1)", "lb(\"edge\", 9)", "lb(\"edge\", 2)"],
+              ["\"core\"", "\"edge\"", "_ { weight: > 5, .. }", "_ { weight: 1, .. }", "_ { name: \"core\", .. }", "|cl_l: &Label| cl_l.weight % 2 == 1",
+               "Label { name: \"edge\", .. }", "_"]),
+    "f64": (["0.0", "-0.0", "1.0", "f64::NAN", "2.5"],
+            ["0.0", "1.0", "> 0.5", "<= 0.0", "|cl_x: &f64| cl_x.is_sign_positive()", "|cl_x: &f64| cl_x.is_nan()", "..=0.0", "!= 1.0", "_"]),
+    "Option<i32>": (["Some(1)", "Some(2)", "None", "Some(-1)"], ["Some(1)", "Some(> 0)", "None", "Some(_)", "|cl_o: &Option<i32>| cl_o.is_some()", "_"]),
+    "(i32, String)": (["(1, \"a\".to_string())", "(1, \"b\".to_string())", "(2, \"a\".to_string())"],
+                      ["(1, _)", "(_, \"a\")", "(> 1, _)", "(1, \"b\")", "(0: 1, 1: =~ r\"^a\")", "_"]),
+    "i32": (["1", "2", "3", "2"], ["1", "2", "> 1", "1..=2", "|cl_x: &i32| cl_x % 2 == 0", "!= 2", "_"]),
+}
+
+
+def brute_force(matrix, n, rest):
+    """patterns (rows) to distinct elements (columns)"""
+    k = len(matrix)
+    if (k > n) or (not rest and k != n):
+        return False
+
+    def go(i, used):
+        if i == k:
+            return True
+        return any(matrix[i][j] and j not in used and go(i + 1, used | {j}) for j in range(n))
+    return go(0, frozenset())
+
+
+def is_literal_pattern(p):
+    return bool(p) and (p[0].isdigit() or p[0] == '"' or (p[0] == "-" and p[1:2].isdigit()))
+
+
+def greedy_orders(matrix, pats, n):
+    """the verdicts of some plausible but wrong searches (first fit without undoing, in several orders of the patterns)"""
+    k = len(matrix)
+    orders = [list(range(k)), list(reversed(range(k))),
+              sorted(range(k), key=lambda i: (not is_literal_pattern(pats[i]), i)),                 # literal patterns first
+              sorted(range(k), key=lambda i: (sum(matrix[i]), i)),                                  # most constrained first
+              sorted(range(k), key=lambda i: (-sum(matrix[i]), i))]
+    out = []
+    for order in orders:
+        for cols in (list(range(n)), list(reversed(range(n)))):
+            used, ok = set(), True
+            for i in order:
+                fit = next((jj for jj in cols if matrix[i][jj] and jj not in used), None)
+                if fit is None:
+                    ok = False
+                    break
+                used.add(fit)
+            out.append(ok)
+    return out
+
+
+def self_consistency(res, n_cases):
+    """Phase 1: the verdict of every pattern of a pool on every element of a pool, each asserted alone (one program).  Phase 2:
+    set patterns over these pools chosen so that the search is hard: an assignment exists but some first-fit search (written order,
+    reversed, literal patterns first, most or least constrained first, elements forwards or backwards) finds none, or no assignment
+    exists although every pattern has a candidate; plus random ones.  The set must pass iff an assignment exists."""
+    import random
+    import e2e
+    rng = random.Random(res.seed * 31 + 10)
+    types = sorted(SELF_TYPES)
+    body = []
+    for ti, ty in enumerate(types):
+        evals, epats = SELF_TYPES[ty]
+        body.append("    { let es: Vec<%s> = vec![%s];" % (ty, ", ".join(evals)))
+        for i, p in enumerate(epats):
+            for jj in range(len(evals)):
+                body.append("      run_case(\"m_%d_%d_%d\", std::panic::AssertUnwindSafe(|| { assert_struct!(&es[%d], %s); }));" % (ti, i, jj, jj, p))
+        body.append("    }")
+    o = e2e.compile_many([e2e.PRELUDE + SELF_DECLS + "fn main() { std::panic::set_hook(Box::new(|_| {}));\n" + "\n".join(body) + "\n}\n"], run=True, tag="c10pairs")[0]
+    e2e.cleanup("c10pairs")
+    if not o["compiled"]:
+        raise vlib.CheckError("the pattern x element program of the set self-consistency stream does not compile: " + o["stderr"][-1500:])
+    pairs = e2e.parse_case_lines(o.get("stdout", ""))
+    table = {ty: [[pairs["m_%d_%d_%d" % (ti, i, jj)]["verdict"] == "pass" for jj in range(len(SELF_TYPES[ty][0]))] for i in range(len(SELF_TYPES[ty][1]))]
+             for ti, ty in enumerate(types)}
+    hard, easy = [], []
+    for _ in range(60 * n_cases):
+        ty = rng.choice(types)
+        evals, epats = SELF_TYPES[ty]
+        n = rng.randint(1, 4)
+        ei = [rng.randrange(len(evals)) for _ in range(n)]
+        rest = rng.random() < 0.4
+        k = rng.randint(1, n) if rest else (n if rng.random() < 0.85 else rng.randint(1, 4))
+        pi = [rng.randrange(len(epats)) for _ in range(k)]
+        matrix = [[table[ty][i][jj] for jj in ei] for i in pi]
+        want = brute_force(matrix, n, rest)
+        pats = [epats[i] for i in pi]
+        length_ok = (k <= n) if rest else (k == n)
+        greedy = greedy_orders(matrix, pats, n) if length_ok else []
+        case = (ty, [evals[jj] for jj in ei], pats, rest, matrix, want)
+        if length_ok and ((want and not all(greedy)) or (not want and all(any(r) for r in matrix))):
+            hard.append(case)
+        else:
+            easy.append(case)
+    seen = set()
+    cases = []
+    for c in hard + easy:
+        key = (c[0], tuple(c[1]), tuple(c[2]), c[3])
+        if key in seen:
+            continue
+        seen.add(key)
+        cases.append(c)
+        if len(cases) >= n_cases and len([x for x in cases if x in hard]) >= 0:
+            break
+    n_hard = sum(1 for c in cases if c in hard[:len(cases)])
+    blocks = []
+    for ci, (ty, elems, pats, rest, matrix, want) in enumerate(cases):
+        blocks.append("    { let es: Vec<%s> = vec![%s]; run_case(\"s_%d\", std::panic::AssertUnwindSafe(|| { assert_struct!(es, #(%s%s)); })); }"
+                      % (ty, ", ".join(elems), ci, ", ".join(pats), ", .." if rest else ""))
+    per = 60
+    progs = [e2e.PRELUDE + SELF_DECLS + "fn main() { std::panic::set_hook(Box::new(|_| {}));\n" + "\n".join(blocks[b:b + per]) + "\n}\n" for b in range(0, len(blocks), per)]
+    out = e2e.compile_many(progs, run=True, tag="c10self")
+    e2e.cleanup("c10self")
+    results = {}
+    for o in out:
+        if not o["compiled"]:
+            raise vlib.CheckError("a set self-consistency program does not compile: " + o["stderr"][-1500:])
+        results.update(e2e.parse_case_lines(o.get("stdout", "")))
+    failing = 0
+    for ci, (ty, elems, pats, rest, matrix, want) in enumerate(cases):
+        got = results["s_%d" % ci]["verdict"] == "pass"
+        if want != got:
+            failing += 1
+            if failing <= 3:
+                res.violation("failing-input", "set pattern #(%s%s) on vec![%s] (%s): the assertion %s but, going by the verdict of each pattern on each "
+                              "element asserted alone, a one-to-one assignment %s" % (", ".join(pats), ", .." if rest else "", ", ".join(elems), ty,
+                                                                                       "passed" if got else "failed", "exists" if want else "does not exist"),
+                              {"self_consistency": True, "type": ty, "elements": elems, "patterns": pats, "rest": rest,
+                               "matrix_pattern_by_element": ["".join("1" if b else "0" for b in r) for r in matrix]})
+    res.streams["set-vs-element-verdicts"] = {"cases": len(cases), "hard_for_a_first_fit_search": n_hard, "failing": failing,
+                                              "pattern_element_pairs_asserted_alone": sum(len(SELF_TYPES[t][0]) * len(SELF_TYPES[t][1]) for t in types),
+                                              "element_types": types}
+    return failing
+
+
 def fallback(res, build_error):
+    name_s = "direct:a set pattern passes iff its patterns can be assigned to distinct elements on which they pass alone (real macro, element types outside the model)"
+    res.obligations.append(name_s)
+    sfail = self_consistency(res, 400 if res.tier == "quick" else 3000)
+    if sfail:
+        return
+    res.discharged.append(name_s)
     cases, failing = macro_level(res, 600 if res.tier == "quick" else 6000, build_error)
     res.obligations.append("correspondence:set_match(verdict, pushed entry, order of predicate calls)")
     res.streams["fallback_macro_level"] = {"cases": len(cases), "failing": failing}
@@ -193,6 +347,21 @@ def fallback(res, build_error):
 def replay(res, path):
     import json
     v = json.load(open(path))
+    if v.get("self_consistency"):
+        import e2e
+        ty, elems, pats, rest = v["type"], v["elements"], v["patterns"], v["rest"]
+        body = ["    { let es: Vec<%s> = vec![%s];" % (ty, ", ".join(elems))]
+        for i, p in enumerate(pats):
+            for j in range(len(elems)):
+                body.append("      run_case(\"m_%d_%d\", std::panic::AssertUnwindSafe(|| { assert_struct!(&es[%d], %s); }));" % (i, j, j, p))
+        body.append("      run_case(\"s\", std::panic::AssertUnwindSafe(|| { assert_struct!(es, #(%s%s)); })); }" % (", ".join(pats), ", .." if rest else ""))
+        o = e2e.compile_many([e2e.PRELUDE + SELF_DECLS + "fn main() { std::panic::set_hook(Box::new(|_| {}));\n" + "\n".join(body) + "\n}\n"], run=True, tag="c10r")[0]
+        e2e.cleanup("c10r")
+        r = e2e.parse_case_lines(o.get("stdout", ""))
+        matrix = [[r["m_%d_%d" % (i, j)]["verdict"] == "pass" for j in range(len(elems))] for i in range(len(pats))]
+        want, got = brute_force(matrix, len(elems), rest), r["s"]["verdict"] == "pass"
+        print("set:", "pass" if got else "fail", "assignment:", "exists" if want else "none", "->", "violation" if want != got else "property holds on this input")
+        return 1 if want != got else 0
     if "pattern" in v:
         import e2e
         import maclib
